@@ -201,7 +201,10 @@ func init() {
 		ID: "C13",
 		Quick:    []hrun{{Harness: "vhC13", Params: P("K", 5, "TYPEKINDS", 1), Covers: []string{"C13/dispatched", "C13/removed"}}, {Harness: "vhC13", Params: P("K", 4, "TYPEKINDS", 3), Covers: []string{"C13/dispatched", "C13/removed"}}, {Harness: "vhC01Conn", Params: P("N", 3, "SEG", 0), Covers: []string{"C01/Conn/some-event"}},
 			// one of the callbacks cancels the request context when it sees an event
-			{Harness: "vhC13", Params: P("K", 3, "TYPEKINDS", 1, "CTXCANCEL", 1), Covers: []string{"C13/dispatched"}}},
+			{Harness: "vhC13", Params: P("K", 3, "TYPEKINDS", 1, "CTXCANCEL", 1), Covers: []string{"C13/dispatched"}},
+			// two goroutines: a dispatch in progress (holding the lock inside a callback) and an unsubscribe; mutex
+			// acquisitions are scheduling points here, every interleaving is explored
+			{Harness: "vhC13Threads", Params: P("LOCKSCHED", 1), Covers: []string{"C13/Threads/ran"}, Threads: true, Stress: 50, NoNative: true, MaxSteps: 20000000}},
 		Thorough: []hrun{{Harness: "vhC13", Params: P("K", 4, "TYPEKINDS", 1, "CTXCANCEL", 1), Covers: []string{"C13/dispatched"}}, {Harness: "vhC13", Params: P("K", 5, "TYPEKINDS", 3), Covers: []string{"C13/dispatched", "C13/removed"}}, {Harness: "vhC13", Params: P("K", 6, "TYPEKINDS", 1), Covers: []string{"C13/dispatched", "C13/removed"}}, {Harness: "vhC01Conn", Params: P("N", 4, "SEG", 0), Covers: []string{"C01/Conn/some-event"}}},
 		Labels:   []string{"C13/", "lock-discipline/", "C01/Conn/events-equal-spec", "C01/Conn/event-count"},
 		Bounds: map[string]string{
